@@ -29,7 +29,7 @@ RULE = (
 )
 ASSUMPTIONS = ["overlay semantics re-implemented independently of confectioner.mix (sections merged key by key, lists and scalars replaced)"]
 FLOORS = {"wrapper_cases": (1500, 40000), "dataset_preset_cases": (800, 20000), "derivative_cases": (800, 20000),
-          "snapshots_checked": (8000, 200000), "overlay_mattered": (500, 10000)}
+          "snapshots_checked": (8000, 200000), "overlay_mattered": (500, 10000), "inplace_history_steps": (3000, 80000)}
 SHARDS_QUICK = 4
 
 
@@ -250,6 +250,48 @@ def derivative_compare(ctx, prog, did, chain, hist, flip):
             ctx.nontrivial(spec_hash(wit))
 
 
+def inplace_history_case(ctx, r):
+    """One long-lived wrapper, ONE caller dictionary object edited in place between calls: every call must see
+    the dictionary's current content (evaluate / validate / keys interleaved)."""
+    g, prog = gen_x(r, depth=1)
+    wrappers = [(g.preset(), r.random() < 0.5) for _ in range(r.choice([1, 2, 3]))]
+    W = prog["root"]
+    for P, force in reversed(wrappers):
+        W = {"k": "with", "spec": W, "P": P, "force": force}
+    wprog = {"datasets": prog["datasets"], "root": W}
+    G = build(wprog)
+    o = U.random_options(r, templated=0.0)
+    edits = []
+    for step in range(5):
+        op = r.choice(["evaluate", "evaluate", "validate", "keys"])
+        with labrea.cache.disabled():
+            got = observe(getattr(G.root, op), o)  # the SAME dict object every time
+            exp = observe(getattr(build(wprog).root, op), copy.deepcopy(o))
+        ctx.evaluations += 2
+        ctx.count("inplace_history_steps")
+        if got[0] != exp[0] or (got[0] == "ok" and got[1] != exp[1]):
+            ctx.violation("stale-view-of-caller-dictionary", f"step {step} {op}(): long-lived wrapper gives {short(got)} for the caller's dictionary after in-place edits "
+                          f"{edits}, a fresh wrapper on a copy gives {short(exp)}", {"kind": "inplace", "program": prog, "wrappers": wrappers, "options": copy.deepcopy(o), "edits": edits})
+            return
+        # edit the caller's own dictionary in place (top-level key or inside a section)
+        k = r.choice(["A", "B", "C", "D", "S.X", "S.Y", "T.X"])
+        v = r.choice(U.SCALARS)
+        cur = o
+        parts = k.split(".")
+        for part in parts[:-1]:
+            if not isinstance(cur.get(part), dict):
+                cur[part] = {}
+            cur = cur[part]
+        if r.random() < 0.25 and parts[-1] in cur:
+            del cur[parts[-1]]
+            edits.append(["del", k])
+        else:
+            cur[parts[-1]] = v
+            edits.append(["set", k, v])
+        if step:
+            ctx.nontrivial(spec_hash(["inplace", prog, wrappers, edits]))
+
+
 def run(ctx):
     n = ctx.n(900, 24000)
     for i in range(n):
@@ -258,6 +300,7 @@ def run(ctx):
         wrapper_case(ctx, r)
         dataset_preset_case(ctx, r)
         derivative_case(ctx, r)
+        inplace_history_case(ctx, r)
 
 
 def replay(ctx, rep):
@@ -266,5 +309,7 @@ def replay(ctx, rep):
         wrapper_compare(ctx, w["program"], [tuple(x) for x in w["wrappers"]], w["options"])
     elif w["kind"] == "dataset-presets":
         preset_compare(ctx, w["program"], w["dataset"], w["options"])
+    elif w["kind"] == "inplace":
+        run(ctx)
     else:
         derivative_compare(ctx, w["program"], w["dataset"], w["chain"], w["history"], w.get("flip", False))
